@@ -3,7 +3,10 @@ import os, sys, json
 
 
 def run_all(run):
-    for u in run.pc.get('units', ['verus']):
+    units = list(run.pc.get('units', ['verus']))
+    if run.tier == 'thorough':
+        units += run.pc.get('thorough_units', [])
+    for u in units:
         if u == 'verus':
             run.verus_unit()
         elif u.startswith('kani:'):
